@@ -174,6 +174,9 @@ def complex_add(document, cls, tags):
 
     if cls.Attributes._xml_tag_body_as is not None:
         for xtba_key, xtba_type in cls.Attributes._xml_tag_body_as:
+            # the type of the text content may be a restriction of its own
+            document.add(xtba_type.type, tags)
+
             _sc = etree.SubElement(sequence_parent, XSD('simpleContent'))
             xtba_ext = etree.SubElement(_sc, XSD('extension'))
             xtba_ext.attrib['base'] = xtba_type.type.get_type_name_ns(
